@@ -28,7 +28,7 @@ ASSUMPTIONS = ["alpha, cover distances from scipy NNLS with certificates",
 N = {"quick": 260, "thorough": 8000}
 REQUIRE = {"quick": {"smallmij_events": 3000, "delta_events": 200, "cover_decisive_true": 200,
                      "cover_decisive_false": 200, "f1_events": 300, "f1_monotone_pairs": 300,
-                     "unequal_alpha_cones": 60, "hv_events": 24}}
+                     "unequal_alpha_cones": 60, "hv_events": 24, "uncovered_events": 100}}
 TIMEOUT = {"quick": 900, "thorough": 5400}
 
 D1_W = [[1, 0, 0], [0, 1, 0], [0, -0.6, 0.8]]
@@ -128,6 +128,43 @@ def check_cover(mon, rng, label, order, X, scale):
                 mon.violation("cover:wrong-" + ("false" if expected else "true"),
                               f"{label}: is_covered={got}, least cone-vector norm {dist!r} vs eps {eps!r}",
                               {"W": W, "vi": X[i], "vj": X[j], "eps": eps, "dist": dist})
+
+
+def check_uncovered(mon, rng, label, order, X, scale):
+    """get_uncovered_set / get_uncovered_size vs the cover-distance oracle (decisive pairs only)."""
+    from vopy.utils import get_uncovered_set, get_uncovered_size
+
+    W = order.ordering_cone.W
+    n = len(X)
+    p_inds = [int(i) for i in rng.choice(n, size=min(n, 4), replace=False)]
+    hat = [int(i) for i in rng.choice(n, size=min(n, 3), replace=False)]
+    eps = float(scale * 10 ** rng.uniform(-1.5, 0.3))
+    mag = float(np.abs(X).max())
+    tau = TAU_SOCP_ABS * scale + TAU_SOCP_REL * mag
+    want, decisive = [], True
+    for i in p_inds:
+        cov = False
+        for j in hat:
+            dist, lb, feas = G.eps_cover_distance(W, X[i], X[j])
+            if abs(dist - eps) <= tau or dist - lb > 1e-8 * (1 + dist):
+                decisive = False
+            cov = cov or dist <= eps
+        if not cov:
+            want.append(i)
+    if not decisive:
+        mon.count("inside_band")
+        return
+    try:
+        got = list(get_uncovered_set(p_inds, hat, X.copy(), eps, W))
+        got_n = int(get_uncovered_size(X[p_inds].copy(), X[hat].copy(), eps, W))
+    except Exception as e:
+        mon.violation(f"uncovered:crash:{type(e).__name__}", repr(e), {"W": W, "X": X, "eps": eps})
+        return
+    mon.count("uncovered_events")
+    mon.event(case_hash("un", W, X, eps, p_inds, hat), True, f"uncovered/{label}")
+    if got != want or got_n != len(want):
+        mon.violation("uncovered:wrong", f"{label}: get_uncovered_set={got}, size={got_n}; oracle {want} (eps={eps:.4g})",
+                      {"W": W, "X": X, "eps": eps, "p": p_inds, "hat": hat})
 
 
 def f1_oracle(W, a_or, X, true_idx, pred_idx, eps, tau):
@@ -324,6 +361,7 @@ def shard(mon, tier, rng, shard_no, nshards):
         X = value_set(rng, m, W, int(rng.integers(2, 41 if it % 4 else 13)), scale)
         check_gaps(mon, rng, label, order, X)
         check_cover(mon, rng, label, order, X, scale)
+        check_uncovered(mon, rng, label, order, X, scale)
         if len(X) <= 14:
             check_f1(mon, rng, label, order, X, scale)
         if len(mon.samples) < 2:
